@@ -97,7 +97,7 @@ def check_cov(e, M, sig):
         return dict(what='all_covariances is not repeatable on the same arguments', input=inp, signature=dict(op='all_covariances', cond='not-repeatable'))
     exp = direct_autocov(M0, sig)
     T = M0.shape[0]
-    scale = max(1.0, np.abs(exp).max())
+    scale = np.abs(exp).max() or 1.0          # relative to the size of the second moments: the covariance function is exact in every system of units
     if got.shape != exp.shape:
         return dict(what='all_covariances: wrong shape', input=inp, observed=list(got.shape), signature=dict(op='all_covariances', cond='shape'))
     err = np.abs(got - exp)
@@ -181,6 +181,14 @@ def oracle(ctx, hints, broken):
         v = check_cov(e, M, sig)
         if v:
             C.push(viol, v)
+        if k % 4 == 1:            # the same process in other units (shock standard deviations down to 1e-7): covariances of order 1e-14 must come back as exactly
+            for c in (1e-3, 1e-6, 1e-7):
+                n += 1
+                v = check_cov(e, M, sig * c)
+                if v:
+                    v['signature'] = dict(v['signature'], scale='small')
+                    v['input'] = dict(v['input'], units_scale=c)
+                    C.push(viol, v)
         # likelihood under the exact covariances of this MA process, any relation between Tobs and T
         Sigma = direct_autocov(M, sig)
         for Tobs in {1, max(1, T - 1), T, T + 2, 2 * T}:
